@@ -230,6 +230,9 @@ def c12_arithmetic(E):
     env.for_path(E)
     m = base_model(E)
     r1, r2 = m.reactions.R1, m.reactions.R2
+    if E.flag("operand_removed_from_the_model_before"):
+        # the user holds a reaction that was taken out of the model; its metabolites and genes still belong to the model
+        m.remove_reactions([r1])
     before = observe(m)
     what = E.pick("operation", ["Reaction.copy", "Metabolite.copy", "r1+r2", "r1-r2", "r1*k", "r1+0", "0+r1", "sum([r1])",
                                 "no_rule+r1", "r1+no_rule"])
@@ -266,6 +269,8 @@ def c12_arithmetic(E):
         model_objs = set(id(x) for x in list(m.metabolites) + list(m.genes) + list(m.reactions))
         import ast
         model_nodes = set(id(n) for r in m.reactions for n in ast.walk(r.gpr)) | set(id(r.gpr) for r in m.reactions)
+        model_nodes |= set(id(n) for n in ast.walk(r1.gpr)) | {id(r1.gpr)}
+        model_objs |= set(id(x) for x in list(r1._metabolites) + list(r1._genes))
         E.prove(res is not r1 and res._model is None and not any(id(x) in model_objs for x in list(res._metabolites) + list(res._genes))
                 and id(res.gpr) not in model_nodes and not any(id(n) in model_nodes for n in ast.walk(res.gpr)),
                 "result-detached", what=what)
